@@ -253,6 +253,19 @@ impl RustDocument {
         Some(alt_node)
     }
 
+    /// Is there a component of that name and kind: among the components read so far, or declared (anywhere) in the
+    /// file that is being read?
+    pub fn declares(&self, start_node: &Node, xml_name: &str, namespace: Option<&Namespace>, wanted: Wanted) -> bool {
+        let read = self.nodes.iter().chain(self.known_nodes.iter()).any(|node| {
+            node.rust_type.xml_name().is_some_and(|n| n == xml_name)
+                && node.in_namespace.as_deref() == namespace
+                && wanted.accepts(&node.rust_type)
+        });
+        read || start_node.document().root().descendants().any(|node| {
+            node.is_element() && wanted.accepts_tag(&node) && node.attribute("name").is_some_and(|n| n.rsplit(':').next() == Some(xml_name))
+        })
+    }
+
     pub fn find_message_by_xml_name(&self, xml_name: &str, _namespace: Option<&Namespace>) -> Option<&Rc<SoapMessage>> {
         self.soap_messages.iter().find(|msg| msg.xml_name == xml_name)
     }
